@@ -91,10 +91,8 @@ def def_sol(formula, display=True, log=False, params={}):
         b_l[bool_eq] = b_u[bool_eq]
 
         bool_bin = (vtype == 'B')
-        lb = formula.lb
-        ub = formula.ub
-        lb[bool_bin] = 0
-        ub[bool_bin] = 1
+        lb = np.where(bool_bin, np.maximum(formula.lb, 0), formula.lb)
+        ub = np.where(bool_bin, np.minimum(formula.ub, 1), formula.ub)
 
         integrality = np.zeros(A.shape[1])
         integrality[vtype != 'C'] = 1
